@@ -196,8 +196,14 @@ def run_family_l(prop, tier, seed, report, scratch, binpath, plans):
     for plan in plans:
         consts = plan["consts"]
         t0 = time.time()
-        res = explore(specdir, plan["name"], consts, minv, mprop, simulate=plan.get("simulate"), seed=seed,
-                      timeout=plan.get("timeout", 1500))
+        if plan.get("scripts"):
+            # hand-picked histories (shapes no bounded exploration reaches, e.g. a fork of eight branches): not generated
+            # by TLC, but replayed and validated by TLC against the same trace specification as every other history
+            res = type("Given", (), {"crashed": False, "violated": [], "generated": 0, "distinct": 0,
+                                     "hist_lines": lambda self: [json.dumps(x, separators=(",", ":")) for x in plan["scripts"]]})()
+        else:
+            res = explore(specdir, plan["name"], consts, minv, mprop, simulate=plan.get("simulate"), seed=seed,
+                          timeout=plan.get("timeout", 1500))
         if res.crashed and not res.violated:
             raise Inconclusive("TLC failed on %s:\n%s" % (plan["name"], res.out[-3000:]))
         if res.violated:
@@ -206,7 +212,7 @@ def run_family_l(prop, tier, seed, report, scratch, binpath, plans):
             report.coverage.setdefault("model_only_counterexamples", []).append(
                 {"plan": plan["name"], "operators": res.violated})
         scripts = res.hist_lines()
-        if plan.get("simulate"):
+        if plan.get("simulate") or plan.get("scripts"):
             scripts = maximal_only(scripts)
             exhaustive = False
         else:
